@@ -27,7 +27,8 @@ ASSUMPTIONS = ["queue states are represented by entries accepted at t=0 with fre
 
 
 def bounds(tier):
-    return {"q": _qs(tier), "free_lifetimes_per_instance": 3 if tier == "quick" else 6, "connect_attempt_index_k": [1, 2, 3],
+    return {"flush_stall": {"held": [2, 3] if tier == "quick" else [2, 3, 4, 5], "stall_s": "(0, 11) free", "lifetimes_s": "(0, 12) free"},
+            "q": _qs(tier), "free_lifetimes_per_instance": 3 if tier == "quick" else 6, "connect_attempt_index_k": [1, 2, 3],
             "capacity_constant_read_from_module": True}
 
 
@@ -43,6 +44,10 @@ def instances(tier):
             out.append({"kind": "step", "q": q, "k": k, "free": min(q, cap_free)})
     if tier == "thorough":
         out.append({"kind": "step", "q": 10, "k": 1, "free": 10})
+    # the flush itself takes time: the first write of the flush is held up (back-pressure) for a free duration, so that
+    # entries behind it can pass their expiry while they wait to be written
+    for q in (2, 3) if tier == "quick" else (2, 3, 4, 5):
+        out.append({"kind": "flush_stall", "q": q})
     for via in ("send", "send_with_header"):
         out.append({"kind": "closed", "how": "never_opened", "via": via})
         out.append({"kind": "closed", "how": "closed_after_open", "via": via})
@@ -76,6 +81,8 @@ def run(ctx, p):
         return _run_step(ctx, p)
     if p["kind"] == "closed":
         return _run_closed(ctx, p)
+    if p["kind"] == "flush_stall":
+        return _run_flush_stall(ctx, p)
     if p["kind"] == "api_overfill":
         return _run_api_overfill(ctx, p)
     if p["kind"] == "concurrent_failures":
@@ -166,6 +173,60 @@ def _run_step(ctx, p):
         ctx.check(sym_and(ok_all, *conds), "step.wire",
                   detail={"frames_written": len(frames), "expected": idx})
         ctx.check(rig.net.max_open <= 1 and not rig.task_failures(), "step.wire")
+
+
+def _run_flush_stall(ctx, p):
+    """q messages with free lifetimes are held for a down link; the console accepts at tc = 2 s and the first write of the
+    flush stays in drain() for a free duration. Reference: an entry is written iff it is unexpired at the instant its own
+    write would start (expired ones are never transmitted), in order, each once."""
+    g = Gen(4)
+    S = socket_mod()
+    q = p["q"]
+    tc = 2.0
+    lifetimes = [ctx.real(f"L{i}", 0, 12, lo_strict=True) for i in range(q)]
+    stall = ctx.real("stall", 0, 11, lo_strict=True)
+    with Rig(ctx, g) as rig:
+        rig.net.on_connect = lambda net, n: ("accept", 0) if n >= 1 else ("refuse",)
+        rig.net.on_drain = lambda conn, n: (stall if n == 1 else None)
+        results = []
+
+        async def populate():
+            await rig.sock.open_socket()
+            for i in range(q):
+                try:
+                    await rig.sock.send(_msg(g, i), S.RetryPolicy(max_retries=i % 3, max_lifetime=lifetimes[i]))
+                    results.append("ok")
+                except Exception as e:  # noqa: BLE001
+                    results.append(type(e).__name__)
+
+        rig.spawn(populate())
+        rig.loop.vt_run(tc + 12.5)
+        ctx.check(results == ["ok"] * q, "step.outcome", detail={"populate": results})
+        wire = rig.net.conns[0].written() if rig.net.conns else []
+        ctx.check(len(wire) % 14 == 0, "step.wire", detail="wire is not a whole number of 14-byte frames")
+        frames = [wire[j * 14:(j + 1) * 14] for j in range(len(wire) // 14)]
+        now = tc
+        stalled = False
+        idx = 0
+        ok_all = True
+        conds = []
+        for i in range(q):
+            if bool(now < lifetimes[i]):          # forks: unexpired when its turn comes
+                if idx < len(frames):
+                    conds.append(bytes_eq(frames[idx], _expected_frame(i, i)))
+                else:
+                    ok_all = False
+                idx += 1
+                if not stalled:
+                    stalled = True
+                    now = now + stall
+        if idx != len(frames):
+            ok_all = False
+        ctx.observe("frames", len(frames))
+        ctx.check(sym_and(ok_all, *conds), "step.wire", detail={"frames_written": len(frames), "expected": idx})
+        ctx.check(rig.net.max_open <= 1 and not rig.task_failures(), "step.wire")
+    for lab in expect_labels("quick"):
+        ctx.reach(lab)
 
 
 def sum_bools(bs):
